@@ -11,7 +11,10 @@ From CV Require Export C01.Syntax.
 
 Definition fsig := (list ty * ty)%type.
 
-Record cenv := mkCenv { ce_decls : decls; ce_funs : list fsig; ce_ret : ty }.
+(* ce_strict = true additionally rejects a conditional expression whose branch types differ from
+   their join (the exact guard under which the interpreter as written - which does not box the
+   branch value - is sound; see Properties/C01.v) *)
+Record cenv := mkCenv { ce_decls : decls; ce_funs : list fsig; ce_ret : ty; ce_strict : bool }.
 
 Definition mem (x : nat) (l : list nat) : bool := existsb (Nat.eqb x) l.
 
@@ -33,30 +36,35 @@ Fixpoint strip (t : ty) : nat * ty :=
 Fixpoint wrap (d : nat) (t : ty) : ty :=
   match d with O => t | S d' => TOpt (wrap d' t) end.
 
-Definition hetero_ok (t : ty) : bool :=
-  match t with
-  | TBool | TStr | TStruct _ | TInt8 | TInt | TAnyS => true
-  | _ => false
-  end.
+Definition is_any (t : ty) : bool := match t with TAnyS | TAnyR => true | _ => false end.
 
-Definition both_int (a b : ty) : bool :=
-  match a, b with
-  | TInt8, TInt | TInt, TInt8 => true
-  | _, _ => false
-  end.
+Definition is_prim (t : ty) : bool :=
+  match t with TInt8 | TInt | TBool | TStr => true | _ => false end.
 
-(* the least common supertype on the fragment; None = outside the fragment (or no join).
+Definition is_struct (t : ty) : bool := match t with TStruct _ => true | _ => false end.
+
+(* the least common supertype on the fragment (sema/type_tags.go LeastCommonSuperType);
+   None = no join, or a join outside the fragment (Integer, HashableStruct, [T] vs [U], ...).
+   - equal types join to themselves;
+   - otherwise optionals are stripped, the cores are joined and the optional levels re-applied,
+     except when the joined core is AnyStruct/AnyResource (they already contain nil);
+   - different cores join to AnyStruct when one of them is AnyStruct or a struct (two hashable
+     primitives would join to HashableStruct, which is outside the fragment).
    The checker re-validates the result with [subtype] (as LeastCommonSuperType's sanity check does). *)
 Definition join (a b : ty) : option ty :=
+  if ty_eqb a b then Some a else
   let '(da, ca) := strip a in
   let '(db, cb) := strip b in
   let d := Nat.max da db in
-  if ty_eqb ca cb then Some (wrap d ca)
+  let rewrap c := if is_any c then Some c else Some (wrap d c) in
+  if ty_eqb ca cb then rewrap ca
   else match ca, cb with
-       | TNever, _ => Some (wrap d cb)
-       | _, TNever => Some (wrap d ca)
+       | TNever, _ => rewrap cb
+       | _, TNever => rewrap ca
        | _, _ =>
-         if hetero_ok ca && hetero_ok cb && negb (both_int ca cb)
+         if kle (kind_of ca) KS && kle (kind_of cb) KS &&
+            ((is_any ca || is_any cb) ||
+             ((is_struct ca || is_struct cb) && (is_struct ca || is_prim ca) && (is_struct cb || is_prim cb)))
          then Some TAnyS else None
        end.
 
@@ -192,7 +200,9 @@ Section check.
           match check_expr G i0 b with
           | Some (b', tb, i2) =>
             match checked_join ta tb with
-            | Some j => Some (ECond c' a' b' ta tb j, j, i1 ++ i2)
+            | Some j =>
+              if negb (ce_strict C) || (ty_eqb ta j && ty_eqb tb j)
+              then Some (ECond c' a' b' ta tb j, j, i1 ++ i2) else None
             | None => None
             end
           | None => None
@@ -506,20 +516,20 @@ End check.
 
 Definition sig_of (f : fundef) : fsig := (fn_params f, fn_ret f).
 
-Definition check_fun (D : decls) (sigs : list fsig) (f : fundef) : option fundef :=
-  let C := mkCenv D sigs (fn_ret f) in
+Definition check_fun (strict : bool) (D : decls) (sigs : list fsig) (f : fundef) : option fundef :=
+  let C := mkCenv D sigs (fn_ret f) strict in
   match check_block C (fn_params f) [] false (fn_body f) with
   | Some (b', _, r) =>
     if ty_eqb (fn_ret f) TVoid || r then Some (mkFun (fn_params f) (fn_ret f) b') else None
   | None => None
   end.
 
-Fixpoint check_funs (D : decls) (sigs : list fsig) (fs : list fundef) : option (list fundef) :=
+Fixpoint check_funs (strict : bool) (D : decls) (sigs : list fsig) (fs : list fundef) : option (list fundef) :=
   match fs with
   | [] => Some []
   | f :: r =>
-    match check_fun D sigs f with
-    | Some f' => match check_funs D sigs r with
+    match check_fun strict D sigs f with
+    | Some f' => match check_funs strict D sigs r with
                  | Some r' => Some (f' :: r')
                  | None => None
                  end
@@ -528,11 +538,17 @@ Fixpoint check_funs (D : decls) (sigs : list fsig) (fs : list fundef) : option (
   end.
 
 (* the typing produced for an accepted program is its elaborated form *)
-Definition check_program (p : program) : option program :=
-  match check_funs (p_decls p) (map sig_of (p_funs p)) (p_funs p) with
+Definition check_program_gen (strict : bool) (p : program) : option program :=
+  match check_funs strict (p_decls p) (map sig_of (p_funs p)) (p_funs p) with
   | Some fs' => match fs' with
                 | [] => None
                 | _ => Some (mkProg (p_decls p) fs')
                 end
   | None => None
   end.
+
+(* the checker *)
+Definition check_program : program -> option program := check_program_gen false.
+
+(* the checker with the additional guard on conditional expressions *)
+Definition check_program_uniform_cond : program -> option program := check_program_gen true.
